@@ -22,7 +22,7 @@ import re
 from ..inline import inline_view
 from ..mir import AnchorLost
 from .c20 import slice_fields
-from ..util import dj_of, truth_edges, norm_cmps, df_of, fn_short, in_set, backward_slice, operand_path, path_last, switch_on, switch_edges
+from ..util import closure_family, dj_of, truth_edges, norm_cmps, df_of, fn_short, in_set, backward_slice, operand_path, path_last, switch_on, switch_edges
 from ..shapes import Accept, SV, DV, NT, impl_method
 from .c17 import REF_SER, REF_DE, norm_self, ASYMMETRIC, head, fmt, N
 
@@ -441,6 +441,42 @@ def r7(ctx, facts):
                    b.span)
 
 
+# calls through which the carriers of the reference tree obtain the bytes they hand to CellWriter::set_value: plain
+# representation accessors. A value-transforming call in that chain (`addr.to_canonical()`, `x.abs()`, `s.trim()` ...) changes
+# what is encoded for some values while every round trip through the driver's own decoder may still look fine.
+SER_BYTE_CALLS = {
+    "alloc::string::String::as_bytes", "alloc::vec::Vec::<T, A>::as_slice", "alloc::vec::Vec::<T>::with_capacity", "core::array::<impl [T; N]>::as_slice",
+    "core::convert::AsRef::as_ref", "core::f32::<impl f32>::to_be_bytes", "core::f64::<impl f64>::to_be_bytes", "core::net::ip_addr::Ipv4Addr::octets",
+    "core::net::ip_addr::Ipv6Addr::octets", "core::num::<impl i16>::to_be_bytes", "core::num::<impl i32>::to_be_bytes", "core::num::<impl i64>::to_be_bytes",
+    "core::num::<impl i8>::to_be_bytes", "core::num::<impl u32>::to_be_bytes", "core::ops::deref::Deref::deref", "core::str::<impl str>::as_bytes",
+    "num_bigint::bigint::BigInt::to_signed_bytes_be", "scylla_cql_core::value::CqlTimeuuid::as_bytes", "scylla_cql_core::value::CqlVarint::as_signed_bytes_be_slice",
+    "scylla_cql_core::value::CqlVarintBorrowed::<'_>::as_signed_bytes_be_slice", "uuid::Uuid::as_bytes",
+    "core::borrow::Borrow::borrow", "core::clone::Clone::clone", "core::slice::<impl [T]>::as_ref", "alloc::vec::Vec::<T, A>::as_ref",
+}
+
+
+def r8(ctx, facts):
+    r = ctx.rule("R8", "carriers hand CellWriter::set_value the value's own bytes (only representation accessors between the value and the bytes)", floor=18)
+    for im in [i for i in facts.impls if i.get("trait_def") == SV and i["crate"] == "scylla_cql_core"]:
+        p = impl_method(facts, im, "serialize")
+        b = facts.body(p) if p else None
+        if b is None:
+            continue
+        odd, n = set(), 0
+        for fb in closure_family(facts, b):
+            for c in fb.calls_to("CellWriter::<'buf>::set_value"):
+                n += 1
+                _, calls, _ = backward_slice(fb, c.args[1])
+                for x in calls:
+                    nm = x.callee.get("def") or x.name or "?"
+                    if nm not in SER_BYTE_CALLS:
+                        odd.add(nm)
+        if n:
+            r.instance("bytes-of:" + norm_self(im["self"]), not odd,
+                       "serialize for %s derives the bytes it writes through %s, which is not a plain representation accessor: some values would be encoded as a different value" % (im["self"], sorted(odd)),
+                       "%s:%s" % (im["file"], im["span"][1]))
+
+
 def check(ctx):
     facts = inline_view(ctx.facts("default"))
     A = Accept(facts)
@@ -449,7 +485,7 @@ def check(ctx):
         tabs = r1(ctx, facts, A)
     except AnchorLost as ex:
         ctx.rule("R1x", "anchors").fail("anchor-lost", str(ex))
-    for fn in ((lambda c, f: r2(c, f, tabs)) if tabs else None, r3, r4, r5, r6, r7):
+    for fn in ((lambda c, f: r2(c, f, tabs)) if tabs else None, r3, r4, r5, r6, r7, r8):
         if fn is None:
             continue
         try:
